@@ -18,6 +18,7 @@ import FileD.Lemmas.Dec.CSV
 import FileD.Lemmas.Dec.Nginx
 import FileD.Lemmas.Dec.Syslog5424
 import FileD.Model.Dec.Raw
+import FileD.Lemmas.Dec.Input
 namespace FileD.PropsC12
 open FileD GoSlice FileD.Dec
 
@@ -95,6 +96,77 @@ theorem csv_frame (delim : UInt8) (trim : Bytes → Bytes) (buf : Bytes) (r : Op
 example : CSV.decode 44 id [97, 44] = .ok (some [[97], []], [97, 44]) := by rfl          -- `a,` (pre-fix: panic)
 example : CSV.decode 44 id [34, 97, 34] = .ok (some [[97]], [34, 97, 34]) := by rfl      -- `"a"` (pre-fix: panic)
 example : CSV.decode 44 id [97, 13, 10] = .ok (some [[97, 10]], [97, 10, 10]) := by rfl  -- the CRLF rewrite
+
+/-- **Pipeline.In, first step (`checkInputBytes`), totality**: no index / slice panic for any line,
+    any limit, any cut-off setting, whatever follows the line in the caller's buffer. -/
+theorem input_total (cfg : Input.Cfg) (line following : Bytes) :
+    ∃ r, Input.checkInputBytes cfg line following = .ok r :=
+  ⟨_, Input.checkInputBytes_eq cfg line following⟩
+
+/-- **Pipeline.In, frame**: the caller's buffer `line ++ following` (everything within the slice's
+    capacity) after the call is `line' ++ following`: the bytes after the line are untouched, the
+    line keeps its length, and the line itself is either untouched or — only when the event is cut
+    off, which requires `MaxEventSize < len(line)` — has the single byte at index `MaxEventSize`
+    (inside the line) overwritten by the re-appended newline. -/
+theorem input_frame (cfg : Input.Cfg) (line following : Bytes) (r : Input.Res)
+    (h : Input.checkInputBytes cfg line following = .ok r) :
+    ∃ line', r.buf = line' ++ following ∧ line'.length = line.length ∧
+      (line' = line ∨
+        (r.cutoff = true ∧ cfg.maxEventSize < line.length ∧ line' = line.set cfg.maxEventSize NL)) := by
+  rw [Input.checkInputBytes_eq] at h
+  cases h
+  unfold Input.spec
+  split
+  · exact ⟨line, rfl, rfl, .inl rfl⟩
+  · split
+    · rename_i hm
+      split
+      · exact ⟨line, rfl, rfl, .inl rfl⟩
+      · split
+        · exact ⟨line.set cfg.maxEventSize NL, rfl, by simp, .inr ⟨rfl, hm.2, rfl⟩⟩
+        · exact ⟨line, rfl, rfl, .inl rfl⟩
+    · exact ⟨line, rfl, rfl, .inl rfl⟩
+
+/-- **Pipeline.In, a line within the limit is passed on as it is**: with no limit, or with
+    `len(line) ≤ MaxEventSize` (the newline counts; equality included), nothing is written, nothing
+    is cut and the event is not marked as cut off (empty input and a lone newline are refused). -/
+theorem input_within_limit (cfg : Input.Cfg) (line following : Bytes)
+    (hl : cfg.maxEventSize = 0 ∨ line.length ≤ cfg.maxEventSize) (hne : line ≠ []) (hnl : line ≠ [NL]) :
+    Input.checkInputBytes cfg line following = .ok ⟨true, false, line, line ++ following⟩ := by
+  rw [Input.checkInputBytes_eq]
+  unfold Input.spec
+  have h0 : ¬ (line.length = 0 ∨ line = [NL]) := by
+    intro h; rcases h with h | h
+    · exact hne (List.length_eq_zero_iff.mp h)
+    · exact hnl h
+  have h1 : ¬ (cfg.maxEventSize ≠ 0 ∧ line.length > cfg.maxEventSize) := by
+    intro ⟨a, b⟩; rcases hl with h | h <;> omega
+  rw [if_neg h0, if_neg h1]
+
+/-- **Pipeline.In, an oversize line** (`len(line) > MaxEventSize ≠ 0`) is refused when cut-off is
+    disabled; otherwise the decoder gets the first `MaxEventSize` bytes, plus a newline if the line
+    ended in one. -/
+theorem input_oversize (cfg : Input.Cfg) (line following : Bytes)
+    (hm : cfg.maxEventSize ≠ 0) (hl : line.length > cfg.maxEventSize) (hne : line ≠ [NL]) :
+    ∃ r, Input.checkInputBytes cfg line following = .ok r ∧ r.accepted = cfg.cutOff ∧
+      (cfg.cutOff = true → r.cutoff = true ∧
+        r.bytes = line.take cfg.maxEventSize ++ (if line.getLast? = some NL then [NL] else [])) := by
+  refine ⟨_, Input.checkInputBytes_eq cfg line following, ?_⟩
+  unfold Input.spec
+  have h0 : ¬ (line.length = 0 ∨ line = [NL]) := by
+    intro h; rcases h with h | h
+    · omega
+    · exact hne h
+  rw [if_neg h0, if_pos ⟨hm, hl⟩]
+  cases hc : cfg.cutOff with
+  | false => simp
+  | true =>
+    by_cases hn : line.getLast? = some NL <;> simp [hn]
+
+-- "abc\n" with MaxEventSize 4 (= len): passed on untouched; with 3: cut to "abc" + "\n", written inside the line
+example : Input.checkInputBytes ⟨4, true⟩ [97, 98, 99, 10] [123, 125] = .ok ⟨true, false, [97, 98, 99, 10], [97, 98, 99, 10, 123, 125]⟩ := by rfl
+example : Input.checkInputBytes ⟨3, true⟩ [97, 98, 99, 10] [123, 125] = .ok ⟨true, true, [97, 98, 99, 10], [97, 98, 99, 10, 123, 125]⟩ := by rfl
+example : Input.checkInputBytes ⟨2, true⟩ [97, 98, 99, 10] [123, 125] = .ok ⟨true, true, [97, 98, 10], [97, 98, 10, 10, 123, 125]⟩ := by rfl
 
 /-- **RAW, totality**: `Pipeline.In` with the raw decoder never panics: empty input and a lone
     newline are refused by `checkInputBytes`, everything else yields a `message`. -/
